@@ -2308,8 +2308,8 @@ func (m *SnapManager) doLinkSnap(t *state.Task, _ *tomb.Tomb) (err error) {
 	t.Set("old-cohort-key", oldCohortKey)
 	t.Set("old-last-refresh-time", oldLastRefreshTime)
 	t.Set("old-revs-before-cand", oldRevsBeforeCand)
+	t.Set("old-revert-status", snapst.RevertStatus)
 	if snapsup.Revert {
-		t.Set("old-revert-status", snapst.RevertStatus)
 		switch snapsup.RevertStatus {
 		case NotBlocked:
 			if snapst.RevertStatus == nil {
@@ -2794,14 +2794,23 @@ func (m *SnapManager) undoLinkSnap(t *state.Task, _ *tomb.Tomb) error {
 	snapst.LastRefreshTime = oldLastRefreshTime
 	snapst.CohortKey = oldCohortKey
 
-	if isRevert {
+	{
 		var oldRevertStatus map[int]RevertStatus
 		err := t.Get("old-revert-status", &oldRevertStatus)
 		if err != nil && !errors.Is(err, state.ErrNoState) {
 			return err
 		}
-		// may be nil if not set (e.g. created by old snapd)
-		snapst.RevertStatus = oldRevertStatus
+		// may be nil if not set (e.g. created by old snapd); tasks of
+		// non-revert changes created by an older snapd did not save it
+		if isRevert || err == nil {
+			// drop entries of revisions discarded before the failure
+			for rev := range oldRevertStatus {
+				if snapst.LastIndex(snap.R(rev)) < 0 {
+					delete(oldRevertStatus, rev)
+				}
+			}
+			snapst.RevertStatus = oldRevertStatus
+		}
 	}
 
 	newInfo, err := readInfo(snapsup.InstanceName(), snapsup.SideInfo, 0)
